@@ -42,6 +42,8 @@ def _rng(r, kind='lit', pre=None, tag=''):
         if kind == 'var':
             pre.append(('assign', nm, N(x)))
             return V(nm)
+        if kind == 'fexpr':
+            return ('bin', '/', N(2 * x), N(2))          # a whole number that is a float
         return ('bin', '-', N(x + 2), N(2))
     return (val(r[0], tag + 'a'), val(r[1], tag + 'b') if r[1] is not None else None)
 
@@ -109,7 +111,7 @@ def matrix_programs(h, w, max_stages, reduced):
                 for order in ('rc', 'cr'):
                     if order == 'cr' and (r is None or c is None):
                         continue
-                    for kind in ('lit', 'var', 'expr'):
+                    for kind in ('lit', 'var', 'expr', 'fexpr'):
                         if kind != 'lit' and (mode != 'logical' or with_default):
                             continue
                         pre = []
@@ -136,6 +138,21 @@ def matrix_programs(h, w, max_stages, reduced):
         yield COLORS[mode] + (('define', 'st', ('r', 'c'), (('stage', (V('r'), None), (V('c'), None)),)),
                               ('act', 'set', (('block', S('m'), (('callst', 'st', (N(0), N(w - 1)), False), SECOND[mode],
                                                                  ('callst', 'st', (N(h - 1), N(0)), True))),)),)
+        # commands for other lights between the stages of a block: the block is still sent, once, to its own light
+        for inner in (('act', 'on', (('light', S('a')),)), ('act', 'set', (('light', S('a')),)),
+                      ('act', 'off', (('group', S('g')),)), ('print', N(5))):
+            for pos in (0, 1, 2):
+                body = [('stage', (N(0), None), None), SECOND[mode], ('stage', None, (N(w - 1), None))]
+                body.insert(pos if pos < 2 else 3, inner)
+                yield COLORS[mode] + (('act', 'set', (('block', S('m'), tuple(body)),)), ('print', N(1)))
+        # blocks inside a routine that uses its parameters before, inside and after each block
+        yield COLORS[mode] + (('define', 'f', ('r', 'c'), (
+            ('act', 'set', (('block', S('m'), (('stage', (V('r'), None), None),)),)),
+            ('print', V('r')),
+            ('act', 'set', (('block', S('m'), (('stage', (V('r'), None), (V('c'), None)),)),)),
+            ('print', V('c')),
+            ('act', 'set', (('matrix', S('m'), None, (V('c'), None)),)))),
+            ('callst', 'f', (N(h - 1), N(0)), False), ('callst', 'f', (N(0), N(w - 1)), True))
         # two set commands in a row: each transmits the whole matrix once
         yield COLORS[mode] + (('act', 'set', (('matrix', S('m'), (N(0), None), None),)), SECOND[mode],
                               ('act', 'set', (('matrix', S('m'), None, (N(w - 1), None)), ('light', S('a')))))
